@@ -67,6 +67,8 @@ def main():
         return all(list(map(bool, i.valid_window_boolean_mask)) == want and list(map(bool, i.valid_peak_boolean_mask)) == want
                    for i in inner)
 
+    cur = {"pats": pats}
+
     def judge(fn_name, recs, got, allowed, case, obj, extra=""):
         ids = [id(r) for r in recs]
         try:
@@ -80,7 +82,7 @@ def main():
                           dict(kind="td", fn=fn_name, case=case))
         if sorted(sel) not in allowed:
             run.violation(f"{fn_name}:selection", f"{fn_name}{extra} kept windows {sel}, property allows {allowed}; patterns="
-                          f"{[[pats[p-1] for p in w] for w in case['pat']]} comps={case['comps']} lim={case['lim']} thr={case['thr']}",
+                          f"{[[cur['pats'][p-1] for p in w] for w in case['pat']]} comps={case['comps']} lim={case['lim']} thr={case['thr']}",
                           dict(kind="td", fn=fn_name, case=case))
         if obj is not None and not masks_ok(obj, sel):
             run.violation(f"{fn_name}:masks", f"{fn_name}: masks of the attached {type(obj).__name__} differ from the selection {sel}; case={case}",
@@ -88,6 +90,7 @@ def main():
         return sel
 
     def process_cases(cases, pats, tag, LTA=LTA):
+        cur["pats"] = pats
         order = rng.permutation(len(cases))
         for n_, ci in enumerate(order):
             case = cases[ci]
